@@ -1702,4 +1702,1363 @@ theorem mv_reads_equal_plain {fs : FS} (hw : WF fs) {v : Variant} {sf : String} 
   · simp only; rw [e0, he]; simpa [coolerEntry] using hf
   · simp only; rw [look, r2]
   · simp only; rw [look, r3]
+
+/-! ### `create`: append-mode frame, write mode, re-creation -/
+
+theorem openFile_sub {fs : FS} {f : String} {mode : Mode} {fs1 : FS} (hm : mode ≠ .w)
+    (h : openFile fs f mode = .ok fs1) : Sub fs fs1 ∧ OnlyFile f fs fs1 ∧ (getFile fs1 f).isSome := by
+  cases mode with
+  | w => exact absurd rfl hm
+  | a =>
+    simp only [openFile] at h
+    cases hg : getFile fs f with
+    | some hh =>
+      simp only [hg, Except.ok.injEq] at h; subst h
+      exact ⟨Sub.refl _, OnlyFile.refl _ _, by simp [hg]⟩
+    | none =>
+      simp only [hg, Except.ok.injEq] at h; subst h
+      refine ⟨⟨?_, ?_⟩, OnlyFile.setFile _ _ _, by rw [getFile_setFile]; simp⟩
+      · intro g hs; rw [getFile_setFile]; by_cases e : f = g <;> simp [e, hs]
+      · intro g k e hk
+        rw [lookupE_setFile]
+        by_cases e' : f = g
+        · subst e'; rw [lookupE_absent hg] at hk; simp at hk
+        · simp [e', hk]
+  | rplus =>
+    simp only [openFile] at h
+    cases hg : getFile fs f with
+    | some hh =>
+      simp only [hg, Except.ok.injEq] at h; subst h
+      exact ⟨Sub.refl _, OnlyFile.refl _ _, by simp [hg]⟩
+    | none => simp [hg] at h
+
+theorem openFile_wf {fs : FS} (hw : WF fs) {f : String} {mode : Mode} {fs1 : FS}
+    (h : openFile fs f mode = .ok fs1) : WF fs1 := by
+  cases mode <;> simp only [openFile] at h
+  · simp only [Except.ok.injEq] at h; subst h; exact wf_setFile hw wf_emptyFile
+  · split at h
+    · simp only [Except.ok.injEq] at h; subst h; exact hw
+    · simp only [Except.ok.injEq] at h; subst h; exact wf_setFile hw wf_emptyFile
+  · split at h
+    · simp only [Except.ok.injEq] at h; subst h; exact hw
+    · simp at h
+
+theorem lookupK_rootParts (es : Entries) (o c : Nat) (k : Path)
+    (hk : under ["bins"] k = false ∧ under ["chroms"] k = false ∧ under ["indexes"] k = false ∧
+      under ["pixels"] k = false) : lookupK (rootParts es o c) k = lookupK es k := by
+  obtain ⟨h1, h2, h3, h4⟩ := hk
+  simp only [rootParts, payloadParts, List.foldl_cons, List.foldl_nil]
+  rw [lookupK_putRegion_off _ _ _ _ h4, lookupK_putRegion_off _ _ _ _ h3, lookupK_putRegion_off _ _ _ _ h2,
+    lookupK_putRegion_off _ _ _ _ h1]
+
+/-- the part of the root group `create` rewrites -/
+def rootPayloadKey (k : Path) : Bool :=
+  under ["bins"] k || under ["chroms"] k || under ["indexes"] k || under ["pixels"] k
+
+theorem attrGet_append (a b : List (String × String)) (key : String) :
+    attrGet (a ++ b) key = (attrGet a key).orElse (fun _ => attrGet b key) := by
+  induction a with
+  | nil => simp [attrGet]
+  | cons p a ih =>
+    obtain ⟨k', v⟩ := p
+    simp only [List.cons_append, attrGet]
+    split <;> simp [ih]
+
+theorem attrGet_filter (q : String → Bool) (a : List (String × String)) (key : String) :
+    attrGet (a.filter (fun p => q p.1)) key = if q key then attrGet a key else none := by
+  induction a with
+  | nil => simp [attrGet]
+  | cons p a ih =>
+    obtain ⟨k', v⟩ := p
+    simp only [List.filter_cons]
+    by_cases hq : q k' = true
+    · simp only [hq, if_true, attrGet]
+      by_cases hk : k' = key
+      · subst hk; simp [hq]
+      · simp [hk, ih]
+    · simp only [hq, attrGet]
+      by_cases hk : k' = key
+      · subst hk; simp [hq, ih]
+      · simp [hk, ih]
+
+/-- `dict.update`: keys of `new` take the new value, every other key keeps its old one -/
+theorem attrGet_update (old new : List (String × String)) (key : String) :
+    attrGet (attrsUpdate old new) key = (attrGet new key).orElse (fun _ => attrGet old key) := by
+  unfold attrsUpdate
+  rw [attrGet_append, attrGet_filter (fun k => (attrGet new k).isNone)]
+  cases h : attrGet new key <;> simp
+
+theorem createCooler_cases {fs : FS} {f : String} {p : Path} {mode : Mode} {c : Nat} {fs' : FS} {oc : Outcome}
+    (h : createCooler fs f p mode c = (fs', oc)) :
+    (fs' = fs ∧ oc ≠ .ok) ∨ ∃ fs1 hh, openFile fs f mode = .ok fs1 ∧ getFile fs1 f = some hh ∧
+      ((p = [] ∧ createRoot fs1 f hh c = (fs', oc)) ∨
+       (∃ x, p = p.dropLast ++ [x] ∧ createAt fs1 f hh p x c = (fs', oc))) := by
+  unfold createCooler at h
+  split at h
+  · rename_i o ho
+    left
+    refine ⟨(Prod.mk.inj h).1.symm, ?_⟩
+    rw [← (Prod.mk.inj h).2]
+    intro hc; subst hc
+    cases mode <;> simp [openFile] at ho <;> split at ho <;> simp at ho
+  · rename_i fs1 ho
+    split at h
+    · rename_i hg
+      exfalso
+      cases mode <;> simp only [openFile] at ho
+      · simp only [Except.ok.injEq] at ho; subst ho; rw [getFile_setFile] at hg; simp at hg
+      · split at ho
+        · rename_i hh hgf; simp only [Except.ok.injEq] at ho; subst ho; rw [hgf] at hg; simp at hg
+        · simp only [Except.ok.injEq] at ho; subst ho; rw [getFile_setFile] at hg; simp at hg
+      · split at ho
+        · rename_i hh hgf; simp only [Except.ok.injEq] at ho; subst ho; rw [hgf] at hg; simp at hg
+        · simp at ho
+    · rename_i hh hg
+      right
+      refine ⟨fs1, hh, ho, hg, ?_⟩
+      split at h
+      · rename_i hx
+        left
+        refine ⟨?_, h⟩
+        cases p with
+        | nil => rfl
+        | cons a p => simp at hx
+      · rename_i x hx
+        exact Or.inr ⟨x, dropLast_append_getLast hx, h⟩
+
+theorem createAt_ok {fs1 : FS} {f : String} {hh : H5File} {p : Path} {x : String} {c : Nat} {fs' : FS}
+    (h : createAt fs1 f hh p x c = (fs', .ok)) :
+    ∃ h1 P, mkdirP fs1 f hh [] p.dropLast = .ok (h1, P) ∧
+      fs' = setFile fs1 f ⟨putRegion h1.entries (P ++ [x]) (coolerRegion h1.next c), h1.next + 5⟩ := by
+  unfold createAt at h
+  split at h
+  · rename_i o hm
+    exfalso
+    have h2 := (Prod.mk.inj h).2
+    subst h2
+    -- mkdirP never fails with `.ok` (same argument as in `placeAt_ok`)
+    have : ∀ (q : List String) (h : H5File) (cur : Path), mkdirP fs1 f h cur q ≠ .error .ok := by
+      intro q
+      induction q with
+      | nil => intro h cur; simp [mkdirP]
+      | cons y rest ih =>
+        intro h cur
+        rw [mkdirP]
+        cases hl : lookupK h.entries (cur ++ [y]) with
+        | none =>
+          simp only
+          by_cases hsh : sharedAt h.entries cur = true
+          · simp [hsh]
+          · simp only [hsh]; exact ih _ _
+        | some e =>
+          cases e with
+          | group o a => exact ih _ _
+          | dataset c => simp
+          | ext g t => simp
+          | soft t =>
+            simp only
+            cases hr : resolve fs1 f t with
+            | none => simp
+            | some l =>
+              obtain ⟨g, Q⟩ := l
+              simp only
+              by_cases hgf : g = f
+              · simp only [hgf, if_true]
+                cases hq : lookupK h.entries Q with
+                | none => simp
+                | some eq => cases eq <;> simp <;> exact ih _ _
+              · simp [hgf]
+    exact this _ _ _ hm
+  · rename_i h1 P hm
+    split at h
+    · simp at h
+    · exact ⟨h1, P, hm, (Prod.mk.inj h).1.symm⟩
+
+/-- **create_append_frame** (group path other than `/`, mode "a" or "r+"): every object of every
+file that does not lie under the canonical target location `D` is unchanged; objects of other
+files are untouched altogether. -/
+theorem create_append_frame {fs : FS} (hw : WF fs) {f : String} {p : Path} {mode : Mode} {c : Nat} {fs' : FS}
+    (hm : mode ≠ .w) (hp : p ≠ []) (h : createCooler fs f p mode c = (fs', .ok)) :
+    OnlyFile f fs fs' ∧
+    ∃ fs1 D, openFile fs f mode = .ok fs1 ∧ destOf fs1 f p = some D ∧
+      ∀ g k e, lookupE fs g k = some e → ¬ (g = f ∧ under D k = true) → lookupE fs' g k = some e := by
+  rcases createCooler_cases h with ⟨_, hne⟩ | ⟨fs1, hh, ho, hg, hcase⟩
+  · exact absurd rfl hne
+  · obtain ⟨hsub, honly, _⟩ := openFile_sub hm ho
+    rcases hcase with ⟨hp0, _⟩ | ⟨x, hpx, hc⟩
+    · exact absurd hp0 hp
+    · obtain ⟨h1, P, hmk, rfl⟩ := createAt_ok hc
+      obtain ⟨a1, _, _, _⟩ := mkdirP_spec fs1 f p.dropLast hh [] [] h1 P (sub_setFile_self hg)
+        (Resolves.nil (by rw [getFile_setFile]; simp)) ((openFile_wf hw ho) f hh hg).1 hmk
+      refine ⟨honly.trans (OnlyFile.setFile _ _ _), fs1, P ++ [x], ho, ?_, ?_⟩
+      · unfold destOf
+        have : p.getLast? = some x := by rw [hpx]; simp
+        simp [hg, this, hmk]
+      · intro g k e hk hnot
+        have hk1 := hsub.2 _ _ _ hk
+        rw [lookupE_setFile]
+        by_cases e' : f = g
+        · subst e'
+          simp only [if_true]
+          have hu : under (P ++ [x]) k = false := by
+            cases hc' : under (P ++ [x]) k with
+            | false => rfl
+            | true => exact absurd ⟨rfl, hc'⟩ hnot
+          rw [lookupK_putRegion_off _ _ _ _ hu]
+          unfold lookupE at hk1; rw [hg] at hk1
+          exact a1 _ _ hk1
+        · simp [e', hk1]
+
+/-! ### a decidable check of relative well-formedness for concrete regions -/
+
+def isGroupB : Entry → Bool
+  | .group _ _ => true
+  | _ => false
+
+def shapeOf (es : Entries) : List (Path × Bool) := es.map (fun p => (p.1, isGroupB p.2))
+
+def lookupS : List (Path × Bool) → Path → Option Bool
+  | [], _ => none
+  | (k', b) :: s, k => if k' = k then some b else lookupS s k
+
+theorem lookupS_shape (es : Entries) (k : Path) : lookupS (shapeOf es) k = (lookupK es k).map isGroupB := by
+  induction es with
+  | nil => rfl
+  | cons p es ih =>
+    obtain ⟨k', e⟩ := p
+    simp only [shapeOf, List.map_cons, lookupS, lookupK]
+    split
+    · simp
+    · exact ih
+
+def properPrefixes (k : Path) : List Path := (List.range k.length).map k.take
+
+def relWFb (s : List (Path × Bool)) : Bool :=
+  s.all (fun p => (properPrefixes p.1).all (fun q => lookupS s q == some true))
+
+theorem lookupK_mem {es : Entries} {k : Path} {e : Entry} (h : lookupK es k = some e) : (k, e) ∈ es := by
+  induction es with
+  | nil => simp [lookupK] at h
+  | cons p es ih =>
+    obtain ⟨k', e'⟩ := p
+    simp only [lookupK] at h
+    split at h
+    · rename_i hk; simp at h; subst hk; subst h; simp
+    · exact List.mem_cons_of_mem _ (ih h)
+
+theorem relWFb_sound {es : Entries} (h : relWFb (shapeOf es) = true) : RelWF es := by
+  intro r e hr q hq hne
+  have hmem : (r, isGroupB e) ∈ shapeOf es := by
+    unfold shapeOf
+    exact List.mem_map.2 ⟨(r, e), lookupK_mem hr, rfl⟩
+  unfold relWFb at h
+  rw [List.all_eq_true] at h
+  have h1 := h _ hmem
+  rw [List.all_eq_true] at h1
+  obtain ⟨s, hs⟩ := (under_iff _ _).1 hq
+  have hlen : q.length < r.length := by
+    rw [hs]
+    have : s ≠ [] := by
+      intro h0; subst h0; simp at hs; exact hne hs.symm
+    have : 0 < s.length := List.length_pos_iff.mpr this
+    simp; omega
+  have hq' : q ∈ properPrefixes r := by
+    unfold properPrefixes
+    refine List.mem_map.2 ⟨q.length, List.mem_range.2 hlen, ?_⟩
+    rw [hs]; simp
+  have h2 := h1 q hq'
+  simp only [beq_iff_eq] at h2
+  rw [lookupS_shape] at h2
+  cases hk : lookupK es q with
+  | none => simp [hk] at h2
+  | some e' =>
+    cases e' with
+    | group o a => exact ⟨o, a, rfl⟩
+    | dataset c => simp [hk, isGroupB] at h2
+    | soft t => simp [hk, isGroupB] at h2
+    | ext g t => simp [hk, isGroupB] at h2
+
+theorem relWF_coolerRegion (o c : Nat) : RelWF (coolerRegion o c) := by
+  apply relWFb_sound
+  have : shapeOf (coolerRegion o c) = shapeOf (coolerRegion 0 0) := rfl
+  rw [this]
+  decide
+
+theorem relWF_parts (o c : Nat) : ∀ part ∈ payloadParts o c, RelWF part.2 := by
+  intro part hp
+  simp only [payloadParts, List.mem_cons, List.not_mem_nil, or_false] at hp
+  rcases hp with rfl | rfl | rfl | rfl <;>
+    (apply relWFb_sound; simp only [shapeOf, List.map_cons, List.map_nil, isGroupB]; decide)
+
+theorem createRoot_ok {fs1 : FS} {f : String} {hh : H5File} {c : Nat} {fs' : FS}
+    (h : createRoot fs1 f hh c = (fs', .ok)) :
+    ∃ o a, lookupK hh.entries [] = some (.group o a) ∧
+      fs' = setFile fs1 f ⟨setEntry (rootParts hh.entries hh.next c) [] (.group o (attrsUpdate a (infoAttrs c))), hh.next + 5⟩ := by
+  unfold createRoot at h
+  split at h
+  · rename_i o a hl
+    split at h
+    · simp at h
+    · exact ⟨o, a, hl, (Prod.mk.inj h).1.symm⟩
+  · simp at h
+
+theorem wf_rootParts {hh : H5File} (hw : WFFile hh) (o c nx : Nat) : WFFile ⟨rootParts hh.entries o c, nx⟩ := by
+  have hp := relWF_parts o c
+  simp only [payloadParts, List.mem_cons, List.not_mem_nil, or_false, forall_eq_or_imp, forall_eq] at hp
+  obtain ⟨p1, p2, p3, p4⟩ := hp
+  simp only [rootParts, payloadParts, List.foldl_cons, List.foldl_nil]
+  have w1 := wf_putRegion (P := []) (x := "bins") (nx := 0) hw hw.1 p1
+  have w2 := wf_putRegion (P := []) (x := "chroms") (nx := 0) w1 w1.1 p2
+  have w3 := wf_putRegion (P := []) (x := "indexes") (nx := 0) w2 w2.1 p3
+  exact wf_putRegion (P := []) (x := "pixels") (nx := nx) w3 w3.1 p4
+
+/-- `create` keeps the file system well-formed -/
+theorem createCooler_wf {fs : FS} (hw : WF fs) {f : String} {p : Path} {mode : Mode} {c : Nat} {fs' : FS} {oc : Outcome}
+    (h : createCooler fs f p mode c = (fs', oc)) : WF fs' := by
+  rcases createCooler_cases h with ⟨rfl, _⟩ | ⟨fs1, hh, ho, hg, hcase⟩
+  · exact hw
+  · have hw1 := openFile_wf hw ho
+    have hwh := hw1 f hh hg
+    rcases hcase with ⟨_, hc⟩ | ⟨x, _, hc⟩
+    · by_cases hoc : oc = .ok
+      · subst hoc
+        obtain ⟨o, a, hl, rfl⟩ := createRoot_ok hc
+        apply wf_setFile hw1
+        have := wf_rootParts hwh hh.next c (hh.next + 5)
+        refine wf_setEntry_group (h := ⟨rootParts hh.entries hh.next c, hh.next + 5⟩) this ?_
+        intro q hq hne
+        cases q with
+        | nil => exact absurd rfl hne
+        | cons a q => simp [under] at hq
+      · unfold createRoot at hc
+        split at hc
+        · split at hc
+          · rw [← (Prod.mk.inj hc).1]; exact hw1
+          · exact absurd (Prod.mk.inj hc).2.symm hoc
+        · rw [← (Prod.mk.inj hc).1]; exact hw1
+    · by_cases hoc : oc = .ok
+      · subst hoc
+        obtain ⟨h1, P, hmk, rfl⟩ := createAt_ok hc
+        have hw1' := mkdirP_wf fs1 f _ hh [] h1 P hwh hwh.1 hmk
+        obtain ⟨_, _, _, a4⟩ := mkdirP_spec fs1 f p.dropLast hh [] [] h1 P (sub_setFile_self hg)
+          (Resolves.nil (by rw [getFile_setFile]; simp)) hwh.1 hmk
+        exact wf_setFile hw1 (wf_putRegion hw1' a4 (relWF_coolerRegion _ _))
+      · unfold createAt at hc
+        split at hc
+        · rw [← (Prod.mk.inj hc).1]; exact hw1
+        · split at hc
+          · rw [← (Prod.mk.inj hc).1]; exact hw1
+          · exact absurd (Prod.mk.inj hc).2.symm hoc
+
+/-- **create_append_frame at the root** (mode "a" or "r+"): `create("file")` rewrites the root's
+four data groups and updates its attributes; every other object of the file — every other
+collection — is unchanged, and every attribute `create` does not write keeps its value. -/
+theorem create_root_append_frame {fs : FS} {f : String} {mode : Mode} {c : Nat} {fs' : FS}
+    (hm : mode ≠ .w) (h : createCooler fs f [] mode c = (fs', .ok)) :
+    OnlyFile f fs fs' ∧
+    (∀ g k e, lookupE fs g k = some e → ¬ (g = f ∧ (k = [] ∨ rootPayloadKey k = true)) → lookupE fs' g k = some e) ∧
+    (∀ o a, lookupE fs f [] = some (.group o a) →
+      ∃ a', lookupE fs' f [] = some (.group o a') ∧
+        ∀ key, attrGet (infoAttrs c) key = none → attrGet a' key = attrGet a key) := by
+  rcases createCooler_cases h with ⟨_, hne⟩ | ⟨fs1, hh, ho, hg, hcase⟩
+  · exact absurd rfl hne
+  · obtain ⟨hsub, honly, _⟩ := openFile_sub hm ho
+    rcases hcase with ⟨_, hc⟩ | ⟨x, hpx, _⟩
+    · obtain ⟨o, a, hl, rfl⟩ := createRoot_ok hc
+      refine ⟨honly.trans (OnlyFile.setFile _ _ _), ?_, ?_⟩
+      · intro g k e hk hnot
+        have hk1 := hsub.2 _ _ _ hk
+        rw [lookupE_setFile]
+        by_cases e' : f = g
+        · subst e'
+          simp only [if_true, lookupK_setEntry]
+          have hk0 : ¬ ([] : Path) = k := fun h0 => hnot ⟨rfl, Or.inl h0.symm⟩
+          simp only [hk0, if_false]
+          have hpk : rootPayloadKey k = false := by
+            cases hc' : rootPayloadKey k with
+            | false => rfl
+            | true => exact absurd ⟨rfl, Or.inr hc'⟩ hnot
+          simp only [rootPayloadKey, Bool.or_eq_false_iff] at hpk
+          rw [lookupK_rootParts _ _ _ _ ⟨hpk.1.1.1, hpk.1.1.2, hpk.1.2, hpk.2⟩]
+          unfold lookupE at hk1; rw [hg] at hk1; exact hk1
+        · simp [e', hk1]
+      · intro o' a' hroot
+        have h1 := hsub.2 _ _ _ hroot
+        unfold lookupE at h1; rw [hg] at h1
+        simp only at h1
+        rw [hl] at h1
+        simp only [Option.some.injEq, Entry.group.injEq] at h1
+        obtain ⟨rfl, rfl⟩ := h1
+        refine ⟨attrsUpdate a (infoAttrs c), by rw [lookupE_setFile_same]; simp [lookupK_setEntry], ?_⟩
+        intro key hkey
+        rw [attrGet_update, hkey]; simp
+    · simp at hpx
+
+/-- **recreate_replaces**: creating at a group path `p ≠ /` (any mode; occupied or not) leaves under
+the canonical target location `D` exactly the new collection — every object an older
+collection had there (nested collections included) is gone — and that location reads `c`. -/
+theorem recreate_replaces {fs : FS} {f : String} {p : Path} {mode : Mode} {c : Nat} {fs' : FS}
+    (hp : p ≠ []) (h : createCooler fs f p mode c = (fs', .ok)) :
+    ∃ fs1 D o, openFile fs f mode = .ok fs1 ∧ destOf fs1 f p = some D ∧
+      (∀ r, lookupE fs' f (D ++ r) = lookupK (coolerRegion o c) r) ∧ ReadsAt fs' (f, D) c := by
+  rcases createCooler_cases h with ⟨_, hne⟩ | ⟨fs1, hh, ho, hg, hcase⟩
+  · exact absurd rfl hne
+  · rcases hcase with ⟨hp0, _⟩ | ⟨x, hpx, hc⟩
+    · exact absurd hp0 hp
+    · obtain ⟨h1, P, hmk, rfl⟩ := createAt_ok hc
+      have hlk : ∀ r, lookupE (setFile fs1 f ⟨putRegion h1.entries (P ++ [x]) (coolerRegion h1.next c), h1.next + 5⟩) f
+          (P ++ [x] ++ r) = lookupK (coolerRegion h1.next c) r := by
+        intro r; rw [lookupE_setFile_same, lookupK_putRegion_under]
+      refine ⟨fs1, P ++ [x], h1.next, ho, ?_, hlk, ?_, ⟨h1.next + 4, [], ?_⟩, ?_⟩
+      · unfold destOf
+        have : p.getLast? = some x := by rw [hpx]; simp
+        simp [hg, this, hmk]
+      · have := hlk []
+        simp only [List.append_nil] at this
+        simp only; rw [this]
+        simp [coolerRegion, lookupK, coolerEntry, fmtOK, infoAttrs, attrGet]
+      · simp only; rw [hlk]
+        simp [coolerRegion, payloadParts, lookupK]
+      · simp only; rw [hlk]
+        simp [coolerRegion, payloadParts, lookupK]
+
+/-- mode "w" is truncation followed by append-mode creation -/
+theorem create_w_eq {fs : FS} {f : String} {p : Path} {c : Nat} :
+    createCooler fs f p .w c = createCooler (setFile fs f emptyFile) f p .a c := by
+  unfold createCooler
+  simp [openFile, getFile_setFile]
+
+/-- **create_w_replaces**: after a successful creation in mode "w" no other file is touched and the
+file holds the new collection and nothing of its previous content: every object in it lies
+under the canonical target `D` (where it is the new collection, see `recreate_replaces`) or is an
+empty group without attributes (the root, the parents of the target). -/
+theorem create_w_replaces {fs : FS} {f : String} {p : Path} {c : Nat} {fs' : FS}
+    (hp : p ≠ []) (h : createCooler fs f p .w c = (fs', .ok)) :
+    OnlyFile f fs fs' ∧ ∃ D o, destOf (setFile fs f emptyFile) f p = some D ∧
+      (∀ r, lookupE fs' f (D ++ r) = lookupK (coolerRegion o c) r) ∧
+      ∀ k e, lookupE fs' f k = some e → under D k = true ∨ ∃ o', e = .group o' [] := by
+  rcases createCooler_cases h with ⟨_, hne⟩ | ⟨fs1, hh, ho, hg, hcase⟩
+  · exact absurd rfl hne
+  · simp only [openFile, Except.ok.injEq] at ho
+    subst ho
+    rw [getFile_setFile] at hg
+    simp only [if_true, Option.some.injEq] at hg
+    subst hg
+    rcases hcase with ⟨hp0, _⟩ | ⟨x, hpx, hc⟩
+    · exact absurd hp0 hp
+    · obtain ⟨h1, P, hmk, rfl⟩ := createAt_ok hc
+      obtain ⟨_, a2, _, _⟩ := mkdirP_spec (setFile fs f emptyFile) f p.dropLast emptyFile [] [] h1 P
+        (sub_setFile_self (by rw [getFile_setFile]; simp))
+        (Resolves.nil (by rw [getFile_setFile]; simp)) wf_emptyFile.1 hmk
+      refine ⟨(OnlyFile.setFile _ _ _).trans (OnlyFile.setFile _ _ _), P ++ [x], h1.next, ?_, ?_, ?_⟩
+      · unfold destOf
+        have : p.getLast? = some x := by rw [hpx]; simp
+        simp [getFile_setFile, this, hmk]
+      · intro r; rw [lookupE_setFile_same, lookupK_putRegion_under]
+      · intro k e hk
+        rw [lookupE_setFile_same, lookupK_putRegion] at hk
+        by_cases hu : under (P ++ [x]) k = true
+        · exact Or.inl hu
+        · simp only [hu] at hk
+          right
+          rcases a2 k e (by simpa using hk) with h' | ⟨_, o', rfl⟩
+          · simp only [emptyFile, lookupK] at h'
+            split at h'
+            · simp at h'; exact ⟨0, h'.symm⟩
+            · simp at h'
+          · exact ⟨o', rfl⟩
+
+/-! ### `list_exact` -/
+
+/-- the file holds no soft or external link -/
+def LinkFree (h : H5File) : Prop :=
+  ∀ k e, lookupK h.entries k = some e → (∃ o a, e = .group o a) ∨ ∃ c, e = .dataset c
+
+theorem mem_insertSorted (x y : String) (l : List String) : y ∈ insertSorted x l ↔ y = x ∨ y ∈ l := by
+  induction l with
+  | nil => simp [insertSorted]
+  | cons z l ih =>
+    simp only [insertSorted]
+    split
+    · simp
+    · split
+      · rename_i hxz; subst hxz; simp
+      · simp only [List.mem_cons, ih]
+        constructor
+        · rintro (h | h | h)
+          · exact Or.inr (Or.inl h)
+          · exact Or.inl h
+          · exact Or.inr (Or.inr h)
+        · rintro (h | h | h)
+          · exact Or.inr (Or.inl h)
+          · exact Or.inl h
+          · exact Or.inr (Or.inr h)
+
+theorem mem_sortDedup (y : String) (l : List String) : y ∈ sortDedup l ↔ y ∈ l := by
+  unfold sortDedup
+  induction l with
+  | nil => simp
+  | cons x l ih => simp only [List.foldr_cons, mem_insertSorted, ih, List.mem_cons]
+
+theorem lookupK_isSome_of_mem {es : Entries} {k : Path} {e : Entry} (h : (k, e) ∈ es) : (lookupK es k).isSome := by
+  induction es with
+  | nil => simp at h
+  | cons p es ih =>
+    obtain ⟨k', e'⟩ := p
+    simp only [lookupK]
+    split
+    · simp
+    · rename_i hk
+      simp only [List.mem_cons, Prod.mk.injEq] at h
+      rcases h with ⟨rfl, _⟩ | h
+      · exact absurd rfl hk
+      · exact ih h
+
+theorem mem_childNames (es : Entries) (P : Path) (x : String) :
+    x ∈ childNames es P ↔ (lookupK es (P ++ [x])).isSome := by
+  unfold childNames
+  rw [mem_sortDedup, List.mem_filterMap]
+  constructor
+  · rintro ⟨⟨k, e⟩, hmem, hk⟩
+    simp only at hk
+    cases hl : k.getLast? with
+    | none => simp [hl] at hk
+    | some y =>
+      simp only [hl] at hk
+      split at hk
+      · rename_i hd
+        simp only [Option.some.injEq] at hk; subst hk
+        have : k = P ++ [y] := by rw [← hd]; exact dropLast_append_getLast hl
+        subst this
+        exact lookupK_isSome_of_mem hmem
+      · simp at hk
+  · intro h
+    cases hl : lookupK es (P ++ [x]) with
+    | none => simp [hl] at h
+    | some e =>
+      refine ⟨(P ++ [x], e), lookupK_mem hl, ?_⟩
+      simp
+
+theorem mem_itemPaths (p : Path) (l : List Item) : p ∈ itemPaths l ↔ Item.path p ∈ l := by
+  induction l with
+  | nil => simp [itemPaths]
+  | cons i l ih =>
+    cases i with
+    | path q => simp only [itemPaths, List.mem_cons, ih, Item.path.injEq]
+    | fuel => simp only [itemPaths, List.mem_cons, ih]; simp
+
+/-- soundness and completeness of the traversal below `P` in a link-free well-formed file -/
+theorem walk_linkfree {fs : FS} {f : String} {h : H5File} (hg : getFile fs f = some h)
+    (hw : WFFile h) (hlf : LinkFree h) (v : Variant) (p : Path) :
+    ∀ (n : Nat) (P : Path),
+      (Item.path p ∈ walk fs v n f P P → under P p = true ∧ p ≠ P ∧ coolerEntry (lookupK h.entries p) = true) ∧
+      (under P p = true → p ≠ P → coolerEntry (lookupK h.entries p) = true → p.length ≤ P.length + n →
+        Item.path p ∈ walk fs v n f P P) := by
+  intro n
+  induction n with
+  | zero =>
+    intro P
+    refine ⟨by simp [walk], ?_⟩
+    intro hu hne _ hlen
+    exfalso
+    obtain ⟨r, rfl⟩ := (under_iff _ _).1 hu
+    have : r = [] := by
+      have : r.length = 0 := by simp at hlen; omega
+      exact List.length_eq_zero_iff.mp this
+    subst this; simp at hne
+  | succ n ih =>
+    intro P
+    have hstep : ∀ x, Item.path p ∈ (match lookupK h.entries (P ++ [x]) with
+        | none => []
+        | some (.dataset _) => []
+        | some (.group _ a) =>
+          (if fmtOK a then [Item.path (P ++ [x])] else []) ++ walk fs v n f (P ++ [x]) (P ++ [x])
+        | some (.soft t) =>
+          match resolve fs f t with
+          | none => if loops fs f t then [.fuel] else []
+          | some (g, Q) =>
+            match lookupE fs g Q with
+            | some (.group _ a) =>
+              (if fmtOK a then [Item.path (P ++ [x])] else []) ++ walk fs v n g Q (P ++ [x])
+            | _ => []
+        | some (.ext g0 t) =>
+          if g0 = f then [.fuel] else
+          match resolve fs g0 t with
+          | none => if loops fs g0 t then [.fuel] else []
+          | some (g, Q) =>
+            let d := linkName fs v g0 t (P ++ [x])
+            match lookupE fs g Q with
+            | some (.group _ a) =>
+              (if fmtOK a then [Item.path d] else []) ++ walk fs v n g Q d
+            | _ => []) ↔
+        ∃ o a, lookupK h.entries (P ++ [x]) = some (.group o a) ∧
+          ((fmtOK a = true ∧ p = P ++ [x]) ∨ Item.path p ∈ walk fs v n f (P ++ [x]) (P ++ [x])) := by
+      intro x
+      cases hl : lookupK h.entries (P ++ [x]) with
+      | none => simp
+      | some e =>
+        rcases hlf _ _ hl with ⟨o, a, rfl⟩ | ⟨c, rfl⟩
+        · simp only [List.mem_append, Option.some.injEq, Entry.group.injEq]
+          constructor
+          · rintro (h1 | h1)
+            · by_cases hf : fmtOK a = true
+              · simp only [hf, if_true, List.mem_singleton, Item.path.injEq] at h1
+                exact ⟨o, a, ⟨rfl, rfl⟩, Or.inl ⟨hf, h1⟩⟩
+              · simp [hf] at h1
+            · exact ⟨o, a, ⟨rfl, rfl⟩, Or.inr h1⟩
+          · rintro ⟨o', a', ⟨rfl, rfl⟩, h1 | h1⟩
+            · left; simp [h1.1, h1.2]
+            · exact Or.inr h1
+        · simp
+    have hmem : Item.path p ∈ walk fs v (n + 1) f P P ↔
+        ∃ x o a, lookupK h.entries (P ++ [x]) = some (.group o a) ∧
+          ((fmtOK a = true ∧ p = P ++ [x]) ∨ Item.path p ∈ walk fs v n f (P ++ [x]) (P ++ [x])) := by
+      simp only [walk, hg, List.mem_flatMap, mem_childNames]
+      constructor
+      · rintro ⟨x, _, hx⟩
+        exact ⟨x, (hstep x).1 hx⟩
+      · rintro ⟨x, o, a, hl, hx⟩
+        exact ⟨x, by simp [hl], (hstep x).2 ⟨o, a, hl, hx⟩⟩
+    constructor
+    · intro hp
+      obtain ⟨x, o, a, hl, hx⟩ := hmem.1 hp
+      rcases hx with ⟨hf, rfl⟩ | hx
+      · exact ⟨under_append _ _, by simp, by simp [hl, coolerEntry, hf]⟩
+      · obtain ⟨h1, h2, h3⟩ := (ih (P ++ [x])).1 hx
+        refine ⟨under_trans (under_append P [x]) h1, ?_, h3⟩
+        intro he; subst he
+        obtain ⟨r, hr⟩ := (under_iff _ _).1 h1
+        have := congrArg List.length hr
+        simp at this
+    · intro hu hne hc hlen
+      obtain ⟨r, rfl⟩ := (under_iff _ _).1 hu
+      cases r with
+      | nil => simp at hne
+      | cons x r =>
+        apply hmem.2
+        have hpre : P ++ x :: r = (P ++ [x]) ++ r := by simp
+        by_cases hr : r = []
+        · subst hr
+          obtain ⟨o, a, he, hf⟩ := coolerEntry_some hc
+          exact ⟨x, o, a, he, Or.inl ⟨hf, rfl⟩⟩
+        · obtain ⟨o, a, he, _⟩ := coolerEntry_some hc
+          obtain ⟨o', a', hg'⟩ := hw.2 _ _ he (P ++ [x]) (by rw [hpre]; exact under_append _ _)
+            (by rw [hpre]; intro h0; apply hr; simpa using h0.symm)
+          refine ⟨x, o', a', hg', Or.inr ?_⟩
+          apply (ih (P ++ [x])).2
+          · rw [hpre]; exact under_append _ _
+          · rw [hpre]; intro h0; apply hr; simpa using h0
+          · exact hc
+          · simp at hlen ⊢; omega
+
+theorem foldl_max_ge {α : Type} (g : α → Nat) (l : List α) (m : Nat) :
+    m ≤ l.foldl (fun m p => max m (g p)) m ∧ ∀ a ∈ l, g a ≤ l.foldl (fun m p => max m (g p)) m := by
+  induction l generalizing m with
+  | nil => simp
+  | cons b l ih =>
+    simp only [List.foldl_cons, List.mem_cons, forall_eq_or_imp]
+    obtain ⟨h1, h2⟩ := ih (max m (g b))
+    exact ⟨by omega, by omega, h2⟩
+
+theorem getFile_mem {fs : FS} {f : String} {h : H5File} (hg : getFile fs f = some h) : (f, h) ∈ fs := by
+  induction fs with
+  | nil => simp [getFile] at hg
+  | cons p fs ih =>
+    obtain ⟨g', h'⟩ := p
+    simp only [getFile] at hg
+    split at hg
+    · rename_i hk; simp at hg; subst hk; subst hg; simp
+    · exact List.mem_cons_of_mem _ (ih hg)
+
+theorem walkFuel_ge {fs : FS} {f : String} {h : H5File} (hg : getFile fs f = some h) {k : Path} {e : Entry}
+    (hk : lookupK h.entries k = some e) : k.length ≤ walkFuel fs := by
+  have h1 : k.length ≤ maxKeyLen h.entries := by
+    unfold maxKeyLen
+    exact (foldl_max_ge (fun p : Path × Entry => p.1.length) h.entries 0).2 _ (lookupK_mem hk)
+  have h2 : maxKeyLen h.entries ≤ fs.foldl (fun m p => max m (maxKeyLen p.2.entries)) 0 :=
+    (foldl_max_ge (fun p : String × H5File => maxKeyLen p.2.entries) fs 0).2 _ (getFile_mem hg)
+  unfold walkFuel
+  omega
+
+/-- in a link-free well-formed file a path resolves to itself iff it is stored -/
+theorem resolveN_linkfree {fs : FS} {f : String} {h : H5File} (hg : getFile fs f = some h)
+    (hw : WFFile h) (hlf : LinkFree h) (n : Nat) :
+    ∀ p : Path, resolveN fs n f p = if (lookupK h.entries p).isSome then some (f, p) else none := by
+  intro p
+  induction p using list_rev_induction with
+  | nil =>
+    rw [resolveN_nil]; unfold start; rw [hg]
+    obtain ⟨o, a, hr⟩ := hw.1
+    simp [hr]
+  | snoc k x ih =>
+    rw [resolveN_snoc, ih]
+    cases hl : lookupK h.entries (k ++ [x]) with
+    | none =>
+      simp only [Option.isSome_none, Bool.false_eq_true, if_false]
+      split
+      · simp [stepWith, lookupE, hg, hl]
+      · rfl
+    | some e =>
+      obtain ⟨o, a, hk⟩ := hw.2 _ _ hl k (under_append _ _) (by simp)
+      simp only [hk, Option.isSome_some, if_true]
+      rcases hlf _ _ hl with ⟨o', a', rfl⟩ | ⟨c, rfl⟩ <;> simp [stepWith, lookupE, hg, hl]
+
+/-- **list_exact**: in a well-formed file without soft or external links, `list_coolers` names
+exactly the paths `is_cooler` recognises. (With an external link the code as it is lists the
+target's internal name instead: `d5_counterexample`.) -/
+theorem list_exact {fs : FS} {f : String} {h : H5File} (hg : getFile fs f = some h)
+    (hw : WFFile h) (hlf : LinkFree h) (p : Path) :
+    p ∈ listCoolers fs f ↔ isCooler fs f p = true := by
+  have his : isCooler fs f p = coolerEntry (lookupK h.entries p) := by
+    unfold isCooler isCoolerSpec isCoolerN
+    rw [resolveN_linkfree hg hw hlf]
+    cases hl : lookupK h.entries p with
+    | none => simp [coolerEntry]
+    | some e => simp [isCoolerAt, lookupE, hg, hl]
+  rw [his]
+  unfold listCoolers listItems
+  rw [mem_itemPaths, List.mem_append]
+  have hwalk := walk_linkfree hg hw hlf Variant.spec p (walkFuel fs) []
+  constructor
+  · rintro (h1 | h1)
+    · split at h1
+      · rename_i hc
+        simp only [List.mem_singleton, Item.path.injEq] at h1
+        subst h1
+        simpa [lookupE, hg] using hc
+      · simp at h1
+    · exact (hwalk.1 h1).2.2
+  · intro hc
+    by_cases hp : p = []
+    · subst hp
+      left
+      have : coolerEntry (lookupE fs f []) = true := by simpa [lookupE, hg] using hc
+      simp [this]
+    · right
+      obtain ⟨o, a, he, _⟩ := coolerEntry_some hc
+      exact hwalk.2 (by simp [under]) hp hc (by simpa using walkFuel_ge hg he)
+
+/-- `is_cooler` never fails: it is a total Boolean function; it answers `false` for a file that does
+not exist, for a path that does not resolve (missing, or through a link that does not
+resolve) and for a dataset. -/
+theorem isCooler_total (fs : FS) (f : String) (p : Path) :
+    (getFile fs f = none → isCooler fs f p = false) ∧
+    (resolve fs f p = none → isCooler fs f p = false) ∧
+    (∀ g P c, resolve fs f p = some (g, P) → lookupE fs g P = some (.dataset c) → isCooler fs f p = false) := by
+  refine ⟨?_, ?_, ?_⟩
+  · intro hg
+    unfold isCooler isCoolerSpec isCoolerN
+    have : resolveN fs LINKFUEL f p = none := by
+      rw [resolveN_eq]; unfold start; rw [hg]; exact foldl_stepWith_none _ _ _
+    rw [this]
+  · intro hr
+    unfold isCooler isCoolerSpec isCoolerN
+    unfold resolve at hr
+    rw [hr]
+  · intro g P c hr hd
+    unfold isCooler isCoolerSpec isCoolerN
+    unfold resolve at hr
+    rw [hr]
+    simp [isCoolerAt, hd, coolerEntry]
+
+/-! ### the root-destination special case: `copyChildren` -/
+
+/-- a resolved location is a stored group or dataset -/
+theorem resolveN_present {fs : FS} (hw : WF fs) :
+    ∀ (n : Nat) (f : String) (p : Path) (g : String) (P : Path), resolveN fs n f p = some (g, P) →
+      ∃ e, lookupE fs g P = some e ∧ ((∃ o a, e = .group o a) ∨ ∃ c, e = .dataset c) := by
+  have key : ∀ (F : String → Path → Option Loc),
+      (∀ g t g' P', F g t = some (g', P') →
+        ∃ e, lookupE fs g' P' = some e ∧ ((∃ o a, e = .group o a) ∨ ∃ c, e = .dataset c)) →
+      ∀ (p : Path) (acc : Option Loc),
+        (∀ g P, acc = some (g, P) → ∃ e, lookupE fs g P = some e ∧ ((∃ o a, e = .group o a) ∨ ∃ c, e = .dataset c)) →
+        ∀ g P, p.foldl (stepWith fs F) acc = some (g, P) →
+          ∃ e, lookupE fs g P = some e ∧ ((∃ o a, e = .group o a) ∨ ∃ c, e = .dataset c) := by
+    intro F hF p
+    induction p with
+    | nil => intro acc hacc g P h; exact hacc g P h
+    | cons x p ih =>
+      intro acc hacc g P h
+      simp only [List.foldl_cons] at h
+      refine ih _ ?_ g P h
+      intro g1 P1 hs
+      unfold stepWith at hs
+      cases acc with
+      | none => simp at hs
+      | some a0 =>
+        obtain ⟨f0, P0⟩ := a0
+        simp only at hs
+        cases hl : lookupE fs f0 (P0 ++ [x]) with
+        | none => simp [hl] at hs
+        | some e =>
+          rw [hl] at hs
+          cases e with
+          | group o a =>
+            simp only [Option.some.injEq, Prod.mk.injEq] at hs
+            obtain ⟨rfl, rfl⟩ := hs
+            exact ⟨_, hl, Or.inl ⟨_, _, rfl⟩⟩
+          | dataset c =>
+            simp only [Option.some.injEq, Prod.mk.injEq] at hs
+            obtain ⟨rfl, rfl⟩ := hs
+            exact ⟨_, hl, Or.inr ⟨_, rfl⟩⟩
+          | soft t => exact hF _ _ _ _ hs
+          | ext g' t => exact hF _ _ _ _ hs
+  have hstart : ∀ f g P, start fs f = some (g, P) →
+      ∃ e, lookupE fs g P = some e ∧ ((∃ o a, e = .group o a) ∨ ∃ c, e = .dataset c) := by
+    intro f g P hs
+    unfold start at hs
+    cases hg : getFile fs f with
+    | none => simp [hg] at hs
+    | some hh =>
+      simp only [hg, Option.some.injEq, Prod.mk.injEq] at hs
+      obtain ⟨rfl, rfl⟩ := hs
+      obtain ⟨o, a, hr⟩ := (hw f hh hg).1
+      exact ⟨_, by unfold lookupE; rw [hg]; exact hr, Or.inl ⟨_, _, rfl⟩⟩
+  intro n
+  induction n with
+  | zero =>
+    intro f p g P h
+    rw [resolveN_eq] at h
+    exact key _ (by intro g t g' P' hh; simp [followN] at hh) p _ (hstart f) g P h
+  | succ n ih =>
+    intro f p g P h
+    rw [resolveN_eq] at h
+    exact key _ (fun g t g' P' hh => ih g t g' P' hh) p _ (hstart f) g P h
+
+theorem under_single (x : String) (k : Path) : under [x] k = true ↔ ∃ r, k = x :: r := by
+  rw [under_iff]; simp
+
+theorem copyChildren_spec {fs : FS} (hw : WF fs) (g : String) (S : Path) (df : String) :
+    ∀ (cs : List String) (h h1 : H5File) (oc : Outcome), WFFile h →
+      copyChildren fs g S df h cs = (h1, oc) →
+      WFFile h1 ∧ SubE h h1 ∧
+      (oc = .ok →
+        (∀ x ∈ cs, lookupK h.entries [x] = none) ∧
+        (∀ k, (∀ x ∈ cs, under [x] k = false) → lookupK h1.entries k = lookupK h.entries k) ∧
+        (∀ x ∈ cs, ∃ g' Q hs d, resolve fs g (S ++ [x]) = some (g', Q) ∧ getFile fs g' = some hs ∧
+          ∀ r, lookupK h1.entries (x :: r) = (lookupK hs.entries (Q ++ r)).map (Entry.shift d))) := by
+  intro cs
+  induction cs with
+  | nil =>
+    intro h h1 oc hwh hc
+    simp only [copyChildren, Prod.mk.injEq] at hc
+    obtain ⟨rfl, rfl⟩ := hc
+    exact ⟨hwh, fun _ _ hk => hk, fun _ => ⟨by simp, fun _ _ => rfl, by simp⟩⟩
+  | cons x rest ih =>
+    intro h h1 oc hwh hc
+    rw [copyChildren] at hc
+    cases hl : lookupK h.entries [x] with
+    | some e =>
+      simp only [hl, Prod.mk.injEq] at hc
+      obtain ⟨rfl, rfl⟩ := hc
+      exact ⟨hwh, fun _ _ hk => hk, by simp⟩
+    | none =>
+      simp only [hl] at hc
+      cases hr : resolve fs g (S ++ [x]) with
+      | none =>
+        simp only [hr, Prod.mk.injEq] at hc
+        obtain ⟨rfl, rfl⟩ := hc
+        exact ⟨hwh, fun _ _ hk => hk, by simp⟩
+      | some l =>
+        obtain ⟨g', Q⟩ := l
+        simp only [hr] at hc
+        by_cases hgd : g' = df
+        · simp only [hgd, if_true, Prod.mk.injEq] at hc
+          obtain ⟨rfl, rfl⟩ := hc
+          exact ⟨hwh, fun _ _ hk => hk, by simp⟩
+        · simp only [hgd, if_false] at hc
+          cases hgs : getFile fs g' with
+          | none =>
+            simp only [hgs, Prod.mk.injEq] at hc
+            obtain ⟨rfl, rfl⟩ := hc
+            exact ⟨hwh, fun _ _ hk => hk, by simp⟩
+          | some hs =>
+            simp only [hgs] at hc
+            -- the file after copying child `x`
+            have hrel : RelWF (shiftOids h.next (getRegion hs.entries Q)) :=
+              relWF_shift _ (relWF_getRegion (hw g' hs hgs) Q)
+            have hw' : WFFile ⟨putRegion h.entries ([] ++ [x]) (shiftOids h.next (getRegion hs.entries Q)), h.next + hs.next⟩ :=
+              wf_putRegion hwh hwh.1 hrel
+            simp only [List.nil_append] at hw'
+            have hsub' : SubE h ⟨putRegion h.entries [x] (shiftOids h.next (getRegion hs.entries Q)), h.next + hs.next⟩ := by
+              intro k e hk
+              simp only [lookupK_putRegion]
+              by_cases hu : under [x] k = true
+              · rw [wf_absent_under hwh hl hu] at hk; simp at hk
+              · simp [hu, hk]
+            obtain ⟨b1, b2, b3⟩ := ih _ h1 oc hw' hc
+            refine ⟨b1, fun k e hk => b2 k e (hsub' k e hk), ?_⟩
+            intro hoc
+            obtain ⟨c1, c2, c3⟩ := b3 hoc
+            -- the copied child's own entry is present, so `x` does not occur again
+            obtain ⟨e0, he0, _⟩ := resolveN_present hw _ _ _ _ _ hr
+            have hxroot : (lookupK (putRegion h.entries [x] (shiftOids h.next (getRegion hs.entries Q))) [x]).isSome := by
+              have := lookupK_putRegion_under h.entries [x] (shiftOids h.next (getRegion hs.entries Q)) []
+              simp only [List.append_nil] at this
+              rw [this, lookupK_shiftOids, lookupK_getRegion]
+              unfold lookupE at he0; rw [hgs] at he0
+              simp only [List.append_nil]; simp at he0; simp [he0]
+            have hxrest : x ∉ rest := by
+              intro hx
+              have := c1 x hx
+              simp only at this
+              rw [this] at hxroot; simp at hxroot
+            refine ⟨?_, ?_, ?_⟩
+            · intro y hy
+              simp only [List.mem_cons] at hy
+              rcases hy with rfl | hy
+              · exact hl
+              · have := c1 y hy
+                simp only [lookupK_putRegion] at this
+                by_cases hu : under [x] [y] = true
+                · obtain ⟨r, hr'⟩ := (under_single x [y]).1 hu
+                  simp only [List.cons.injEq] at hr'
+                  exact absurd (hr'.1 ▸ hy) hxrest
+                · simpa [hu] using this
+            · intro k hk
+              have hkx : under [x] k = false := hk x (by simp)
+              rw [c2 k (fun y hy => hk y (List.mem_cons_of_mem _ hy))]
+              simp only [lookupK_putRegion, hkx]; simp
+            · intro y hy
+              simp only [List.mem_cons] at hy
+              rcases hy with rfl | hy
+              · refine ⟨g', Q, hs, h.next, hr, hgs, fun r => ?_⟩
+                have hoff : ∀ z ∈ rest, under [z] (y :: r) = false := by
+                  intro z hz
+                  cases hc' : under [z] (y :: r) with
+                  | false => rfl
+                  | true =>
+                    obtain ⟨r', hr'⟩ := (under_single z (y :: r)).1 hc'
+                    simp only [List.cons.injEq] at hr'
+                    exact absurd (hr'.1 ▸ hz) hxrest
+                rw [c2 _ hoff]
+                have := lookupK_putRegion_under h.entries [y] (shiftOids h.next (getRegion hs.entries Q)) r
+                simp only [List.singleton_append] at this
+                rw [this, lookupK_shiftOids, lookupK_getRegion]
+              · exact c3 y hy
+
+theorem copyToRoot_ok {fs1 : FS} {g : String} {S : Path} {df : String} {fs' : FS}
+    (h : copyToRoot fs1 g S df = (fs', .ok)) :
+    ∃ hs hd o a o' sattrs h1, getFile fs1 g = some hs ∧ getFile fs1 df = some hd ∧
+      lookupK hs.entries S = some (.group o' sattrs) ∧ lookupK hd.entries [] = some (.group o a) ∧
+      copyChildren fs1 g S df hd (childNames hs.entries S) = (h1, .ok) ∧
+      fs' = setFile fs1 df ⟨setEntry h1.entries [] (.group o (attrsUpdate a sattrs)), h1.next⟩ := by
+  unfold copyToRoot at h
+  split at h
+  · rename_i hs hd hgs hgd
+    split at h
+    · rename_i o' sattrs hl
+      split at h
+      · simp at h
+      · split at h
+        · rename_i o a hroot
+          split at h
+          · simp at h
+          · split at h
+            · rename_i h1 hcc
+              exact ⟨hs, hd, o, a, o', sattrs, h1, hgs, hgd, hl, hroot, hcc, (Prod.mk.inj h).1.symm⟩
+            · rename_i h1 oc hne hcc
+              exact absurd (Prod.mk.inj h).2 hne
+        · simp at h
+    · simp at h
+  · simp at h
+
+theorem copyToRoot_reads {fs1 : FS} (hw : WF fs1) {g : String} {S : Path} {df : String} {fs' : FS}
+    (h : copyToRoot fs1 g S df = (fs', .ok)) {c : Nat} (hr : ReadsAt fs1 (g, S) c) : Reads fs' df [] c := by
+  obtain ⟨hs, hd, o, a, o', sattrs, h1, hgs, hgd, hl, hroot, hcc, rfl⟩ := copyToRoot_ok h
+  obtain ⟨_, _, hspec⟩ := copyChildren_spec hw g S df _ hd h1 .ok (hw df hd hgd) hcc
+  obtain ⟨_, _, c3⟩ := hspec rfl
+  obtain ⟨r1, ⟨o2, a2, r2⟩, r3⟩ := hr
+  simp only at r1 r2 r3
+  have hlE : lookupE fs1 g S = some (.group o' sattrs) := by unfold lookupE; rw [hgs]; exact hl
+  rw [hlE] at r1
+  have hfmt : fmtOK sattrs = true := by simpa [coolerEntry] using r1
+  -- "pixels" is a child of the source group
+  have r2' : lookupK hs.entries (S ++ ["pixels"]) = some (.group o2 a2) := by
+    unfold lookupE at r2; rw [hgs] at r2; exact r2
+  have hchild : "pixels" ∈ childNames hs.entries S := by
+    rw [mem_childNames]; simp [r2']
+  obtain ⟨g', Q, hs', d, hres, hgs', hlk⟩ := c3 "pixels" hchild
+  -- … which resolves to itself
+  have hcanon : resolveN fs1 LINKFUEL g (S ++ ["pixels"]) = some (g, S ++ ["pixels"]) := by
+    apply resolveN_groups (by simp [hgs])
+    intro q hq hne
+    by_cases hqe : q = S ++ ["pixels"]
+    · subst hqe; exact ⟨_, _, r2⟩
+    · have hqS := prefix_of_snoc hq hqe
+      by_cases hqS' : q = S
+      · subst hqS'; exact ⟨_, _, hlE⟩
+      · obtain ⟨oo, aa, hh⟩ := (hw g hs hgs).2 S _ hl q hqS hqS'
+        exact ⟨oo, aa, by unfold lookupE; rw [hgs]; exact hh⟩
+  have hloc : (g', Q) = (g, S ++ ["pixels"]) := Resolves.det ⟨LINKFUEL, hres⟩ ⟨LINKFUEL, hcanon⟩
+  obtain ⟨rfl, rfl⟩ := Prod.mk.inj hloc
+  rw [hgs] at hgs'
+  obtain rfl := Option.some.inj hgs'
+  have e1 : lookupK h1.entries ["pixels"] = some (.group (o2 + d) a2) := by
+    have := hlk []
+    simp only [List.append_nil] at this
+    rw [this, r2']; simp [Entry.shift]
+  have e2 : lookupK h1.entries ["pixels", "count"] = some (.dataset c) := by
+    have := hlk ["count"]
+    rw [this]
+    have r3' : lookupK hs.entries (S ++ ["pixels", "count"]) = some (.dataset c) := by
+      unfold lookupE at r3; rw [hgs] at r3; exact r3
+    have : S ++ ["pixels"] ++ ["count"] = S ++ ["pixels", "count"] := by simp
+    rw [this, r3']; simp [Entry.shift]
+  rw [reads_iff]
+  refine ⟨(df, []), Resolves.nil (by rw [getFile_setFile]; simp), ?_, ⟨o2 + d, a2, ?_⟩, ?_⟩
+  · simp only
+    rw [lookupE_setFile_same]
+    simp only [lookupK_setEntry, if_true, coolerEntry, fmtOK]
+    rw [attrGet_update]
+    have : attrGet sattrs "format" = some MAGIC := by simpa [fmtOK] using hfmt
+    simp [this]
+  · simp only [List.nil_append]
+    rw [lookupE_setFile_same, lookupK_setEntry]; simp [e1]
+  · simp only [List.nil_append]
+    rw [lookupE_setFile_same, lookupK_setEntry]; simp [e2]
+
+/-- **copy_reads_equal, root destination** (`cp src_file::/g dst_file` with two different files; also
+`mv` in the code as it is, which copies): the root of the destination file reads what the source
+read. -/
+theorem copy_root_reads_equal {fs : FS} (hw : WF fs) {v : Variant} {sf : String} {sp : Path} {df : String}
+    {ow rename : Bool} {fs' : FS}
+    (hT : ow = true → getFile fs df = none) (hne : sf ≠ df) (hmv : rename = true → v.d4 = true)
+    (h : copyOp fs v sf sp df [] ow false rename false = (fs', .ok))
+    {c : Nat} (hr : Reads fs sf sp c) : Reads fs' df [] c := by
+  obtain ⟨_, _, hb⟩ := copyOp_opened h
+  have hw1 := afterOpen_wf hw df ow
+  have hr1 : Reads (afterOpen fs df ow) sf sp c := hr.mono (afterOpen_sub hT)
+  simp only [hne, if_false, Bool.false_eq_true] at hb
+  unfold copyCross at hb
+  cases hres : resolve (afterOpen fs df ow) sf sp with
+  | none => simp [hres] at hb
+  | some l =>
+    obtain ⟨g, S⟩ := l
+    simp only [hres, if_true] at hb
+    cases hd : copyToRoot (afterOpen fs df ow) g S df with
+    | mk fs2 oc =>
+      rw [hd] at hb
+      cases oc with
+      | err e => simp at hb
+      | corner w => simp at hb
+      | ok =>
+        have hno : (rename && !v.d4) = false := by
+          cases rename with
+          | false => rfl
+          | true => simp [hmv rfl]
+        simp only [hno, Bool.false_eq_true, if_false] at hb
+        have : fs2 = fs' := (Prod.mk.inj hb).1
+        subst this
+        exact copyToRoot_reads hw1 hd (reads_at_resolved hr1 hres)
+
+/-! ### every operation keeps the file system well-formed, whatever its outcome -/
+
+theorem placeAt_wf {fs : FS} (hw : WF fs) {f : String} {dp : Path} {new : H5File → Entries × Nat} {ex : ErrClass}
+    {fs' : FS} {oc : Outcome} (hrel : ∀ h1, RelWF (new h1).1) (h : placeAt fs f dp new ex = (fs', oc)) : WF fs' := by
+  by_cases hoc : oc = .ok
+  · subst hoc
+    obtain ⟨h1, _, _, _, _, _, _, _, hwf, _, _⟩ := placeAt_facts hw h
+    exact hwf (hrel h1)
+  · rw [placeAt_not_ok h hoc]; exact hw
+
+theorem deepCopyTo_wf {fs1 : FS} (hw : WF fs1) {g : String} {S : Path} {df : String} {dp : Path} {fs' : FS}
+    {oc : Outcome} (h : deepCopyTo fs1 g S df dp = (fs', oc)) : WF fs' := by
+  unfold deepCopyTo at h
+  split at h
+  · rw [← (Prod.mk.inj h).1]; exact hw
+  · rename_i hs hg
+    split at h
+    · exact placeAt_wf hw (fun h1 => relWF_shift _ (relWF_getRegion (hw g hs hg) S)) h
+    · rw [← (Prod.mk.inj h).1]; exact hw
+
+theorem unlink_wf {fs : FS} (hw : WF fs) {f : String} {p : Path} {fs' : FS} (h : unlink fs f p = .ok fs') :
+    WF fs' := by
+  obtain ⟨y, Ps, hh, _, _, hg, rfl⟩ := unlink_ok h
+  exact wf_setFile hw (wf_removeUnder (hw f hh hg) (by simp))
+
+theorem hardLinkSame_wf {fs1 : FS} (hw : WF fs1) {sf : String} {sp dp : Path} {rename : Bool} {fs' : FS}
+    {oc : Outcome} (h : hardLinkSame fs1 sf sp dp rename = (fs', oc)) : WF fs' := by
+  unfold hardLinkSame at h
+  split at h
+  · rw [← (Prod.mk.inj h).1]; exact hw
+  · rename_i g S _
+    split at h
+    · rw [← (Prod.mk.inj h).1]; exact hw
+    · split at h
+      · rw [← (Prod.mk.inj h).1]; exact hw
+      · rename_i hs hg
+        have hrel : ∀ h1 : H5File, RelWF ((fun h1 : H5File => (getRegion hs.entries S, h1.next)) h1).1 :=
+          fun _ => relWF_getRegion (hw g hs hg) S
+        split at h
+        · split at h
+          · rename_i fs2 hp
+            have hw2 : WF fs2 := placeAt_wf hw hrel hp
+            split at h
+            · split at h
+              · rw [← (Prod.mk.inj h).1]; exact hw2
+              · split at h
+                · split at h
+                  · rename_i fs3 hun
+                    rw [← (Prod.mk.inj h).1]; exact unlink_wf hw2 hun
+                  · rw [← (Prod.mk.inj h).1]; exact hw2
+                · rw [← (Prod.mk.inj h).1]; exact hw2
+            · rw [← (Prod.mk.inj h).1]; exact hw2
+          · exact placeAt_wf hw hrel h
+        · rw [← (Prod.mk.inj h).1]; exact hw
+
+theorem copyToRoot_wf {fs1 : FS} (hw : WF fs1) {g : String} {S : Path} {df : String} {fs' : FS} {oc : Outcome}
+    (h : copyToRoot fs1 g S df = (fs', oc)) : WF fs' := by
+  unfold copyToRoot at h
+  split at h
+  · rename_i hs hd hgs hgd
+    split at h
+    · split at h
+      · rw [← (Prod.mk.inj h).1]; exact hw
+      · split at h
+        · split at h
+          · rw [← (Prod.mk.inj h).1]; exact hw
+          · split at h
+            · rename_i h1 hcc
+              obtain ⟨hw1, _, _⟩ := copyChildren_spec hw g S df _ hd h1 .ok (hw df hd hgd) hcc
+              rw [← (Prod.mk.inj h).1]
+              apply wf_setFile hw
+              refine wf_setEntry_group hw1 ?_
+              intro q hq hne
+              cases q with
+              | nil => exact absurd rfl hne
+              | cons a q => simp [under] at hq
+            · rename_i h1 oc' _ hcc
+              obtain ⟨hw1, _, _⟩ := copyChildren_spec hw g S df _ hd h1 oc' (hw df hd hgd) hcc
+              rw [← (Prod.mk.inj h).1]
+              exact wf_setFile hw hw1
+        · rw [← (Prod.mk.inj h).1]; exact hw
+    · rw [← (Prod.mk.inj h).1]; exact hw
+  · rw [← (Prod.mk.inj h).1]; exact hw
+
+theorem copyCross_wf {fs1 : FS} (hw : WF fs1) {v : Variant} {sf : String} {sp : Path} {df : String} {dp : Path}
+    {rename : Bool} {fs' : FS} {oc : Outcome} (h : copyCross fs1 v sf sp df dp rename = (fs', oc)) : WF fs' := by
+  unfold copyCross at h
+  split at h
+  · rw [← (Prod.mk.inj h).1]; exact hw
+  · rename_i g S _
+    have hw2 : ∀ fs2 oc2, (if dp = [] then copyToRoot fs1 g S df else deepCopyTo fs1 g S df dp) = (fs2, oc2) → WF fs2 := by
+      intro fs2 oc2 h2
+      split at h2
+      · exact copyToRoot_wf hw h2
+      · exact deepCopyTo_wf hw h2
+    split at h
+    · rename_i fs2 h2
+      split at h
+      · split at h
+        · rename_i fs3 hun
+          rw [← (Prod.mk.inj h).1]; exact unlink_wf (hw2 _ _ h2) hun
+        · rw [← (Prod.mk.inj h).1]; exact hw2 _ _ h2
+      · rw [← (Prod.mk.inj h).1]; exact hw2 _ _ h2
+    · exact hw2 _ _ h
+
+theorem copyOp_wf {fs : FS} (hw : WF fs) {v : Variant} {sf : String} {sp : Path} {df : String} {dp : Path}
+    {ow link rename soft : Bool} {fs' : FS} {oc : Outcome}
+    (h : copyOp fs v sf sp df dp ow link rename soft = (fs', oc)) : WF fs' := by
+  have hw1 := afterOpen_wf hw df ow
+  rcases copyOp_cases h with rfl | rfl | hb
+  · exact hw
+  · exact hw1
+  · split at hb
+    · split at hb
+      · exact hardLinkSame_wf hw1 hb
+      · split at hb
+        · exact placeAt_wf hw1 (fun _ => relWF_single _) hb
+        · unfold copySame at hb
+          split at hb
+          · rw [← (Prod.mk.inj hb).1]; exact hw1
+          · exact deepCopyTo_wf hw1 hb
+    · split at hb
+      · rw [← (Prod.mk.inj hb).1]; exact hw1
+      · split at hb
+        · exact placeAt_wf hw1 (fun _ => relWF_single _) hb
+        · exact copyCross_wf hw1 hb
+
+theorem setNote_wf {fs : FS} (hw : WF fs) {f value : String} {fs' : FS} {oc : Outcome}
+    (h : setNote fs f value = (fs', oc)) : WF fs' := by
+  unfold setNote at h
+  split at h
+  · rw [← (Prod.mk.inj h).1]; exact hw
+  · rename_i fs1 ho
+    have hw1 := openFile_wf hw ho
+    split at h
+    · rw [← (Prod.mk.inj h).1]; exact hw1
+    · rename_i hh hg
+      split at h
+      · rw [← (Prod.mk.inj h).1]
+        apply wf_setFile hw1
+        refine wf_setEntry_group (hw1 f hh hg) ?_
+        intro q hq hne
+        cases q with
+        | nil => exact absurd rfl hne
+        | cons a q => simp [under] at hq
+      · rw [← (Prod.mk.inj h).1]; exact hw1
+
+/-- **the invariant**: every operation, successful or not, keeps the file system well-formed … -/
+theorem step_wf {fs : FS} (hw : WF fs) (v : Variant) (op : Op) : WF (step v fs op).1 := by
+  cases op with
+  | create f p m c => exact createCooler_wf hw (rfl : createCooler fs f p m c = (_, _))
+  | cp sf sp df dp o => exact copyOp_wf hw (rfl : copyOp fs v sf sp df dp o false false false = (_, _))
+  | mv sf sp df dp o => exact copyOp_wf hw (rfl : copyOp fs v sf sp df dp o false true false = (_, _))
+  | ln sf sp df dp s o => exact copyOp_wf hw (rfl : copyOp fs v sf sp df dp o (!s) false s = (_, _))
+  | note f x => exact setNote_wf hw (rfl : setNote fs f x = (_, _))
+
+/-- … hence so is the state after ANY history from the empty file system (or from any well-formed
+one): the theorems above apply after every history. -/
+theorem run_wf (v : Variant) : ∀ (ops : List Op) (fs : FS), WF fs → WF (run v fs ops) := by
+  intro ops
+  induction ops with
+  | nil => intro fs hw; exact hw
+  | cons op ops ih =>
+    intro fs hw
+    simp only [run, List.foldl_cons]
+    exact ih _ (step_wf hw v op)
+
+/-! ### `mv`: frame, and the cross-file behaviour of the code as it is (finding D4) in general -/
+
+/-- in the code as it is (`d4`), `mv` between two different files IS `cp`: the `rename` flag is
+never looked at in that branch -/
+theorem mv_cross_eq_cp {fs : FS} {v : Variant} (hv : v.d4 = true) {sf : String} {sp : Path} {df : String} {dp : Path}
+    {ow : Bool} (hne : sf ≠ df) : mv fs v sf sp df dp ow = cp fs v sf sp df dp ow := by
+  unfold mv cp copyOp
+  simp [hne, copyCross, hv]
+
+/-- **finding D4, general form**: in the code as it is, after ANY successful `mv` between two
+different files that did not truncate an existing destination file, the source still reads what
+it read before (and so does the destination: `copy_reads_equal` applies through `mv_cross_eq_cp`). -/
+theorem mv_cross_file_keeps_source {fs : FS} (hw : WF fs) {v : Variant} (hv : v.d4 = true) {sf : String} {sp : Path}
+    {df : String} {dp : Path} {ow : Bool} {fs' : FS} (hne : sf ≠ df) (hdp : dp ≠ [])
+    (hT : ow = true → getFile fs df = none)
+    (h : mv fs v sf sp df dp ow = (fs', .ok)) {c : Nat} (hr : Reads fs sf sp c) :
+    Reads fs' sf sp c ∧ Reads fs' df dp c := by
+  rw [mv_cross_eq_cp hv hne] at h
+  unfold cp at h
+  exact ⟨((copy_frame hw (fun _ => hdp) h).2 hT).2 _ _ _ hr, copy_reads_equal hw hT (fun _ => hdp) h hr⟩
+
+/-- **copy_frame for `mv` inside one file**: apart from what lies under the source link's canonical
+location `L` (which is removed) every object that existed is still there, unchanged; no other
+file is touched. -/
+theorem mv_frame {fs : FS} (hw : WF fs) {v : Variant} {sf : String} {sp dp : Path} {ow : Bool} {fs' : FS}
+    (h : mv fs v sf sp sf dp ow = (fs', .ok)) :
+    OnlyFile sf fs fs' ∧ ∃ L, (∀ r, lookupE fs' sf (L ++ r) = none) ∧
+      ∀ g k e, lookupE fs g k = some e → ¬ (g = sf ∧ under L k = true) → lookupE fs' g k = some e := by
+  unfold mv at h
+  obtain ⟨hfile, hnw, hb⟩ := copyOp_opened h
+  simp only [if_true, Bool.or_true] at hb
+  have hfs1 : afterOpen fs sf ow = fs := by
+    unfold afterOpen
+    have : ¬ (((getFile fs sf).isNone || ow) = true) := fun hc => hnw ⟨hc, rfl⟩
+    simp [this]
+  rw [hfs1] at hb
+  obtain ⟨S, hs, fs2, D, _, _, _, hp, _, _, hun⟩ := hardLinkSame_ok hb
+  simp only [if_true] at hun
+  have hsub := placeAt_sub hw hp
+  have honly := placeAt_only hp
+  obtain ⟨y, Ps, hh, _, _, hg2, rfl⟩ := unlink_ok hun
+  refine ⟨honly.trans (OnlyFile.setFile _ _ _), Ps ++ [y], ?_, ?_⟩
+  · intro r
+    rw [lookupE_setFile_same, lookupK_removeUnder, under_append]; rfl
+  · intro g k e hk hnot
+    have hk2 := hsub.2 _ _ _ hk
+    rw [lookupE_setFile]
+    by_cases e' : sf = g
+    · subst e'
+      simp only [if_true, lookupK_removeUnder]
+      have hu : under (Ps ++ [y]) k = false := by
+        cases hc : under (Ps ++ [y]) k with
+        | false => rfl
+        | true => exact absurd ⟨rfl, hc⟩ hnot
+      simp only [hu]
+      unfold lookupE at hk2; rw [hg2] at hk2; simpa using hk2
+    · simp [e', hk2]
+
+/-! ### the code as it is: findings D4 and D5, machine-checked on concrete histories -/
+
+/-- one collection (content 7) at `/x/y` of file `A` -/
+def fsOne : FS := run Variant.spec [] [.create "A" ["x", "y"] .a 7]
+
+/-- the specification: after `mv A::/x/y B::/m` the source is gone and `B::/m` reads 7 … -/
+theorem d4_spec_example :
+    let r := mv fsOne Variant.spec "A" ["x", "y"] "B" ["m"] false
+    r.2 = .ok ∧ readCollection r.1 "B" ["m"] = some 7 ∧ isCooler r.1 "A" ["x", "y"] = false := by
+  decide
+
+/-- … the code as it is copies and leaves the source: **finding D4** -/
+theorem d4_counterexample :
+    let r := mv fsOne Variant.current "A" ["x", "y"] "B" ["m"] false
+    r.2 = .ok ∧ readCollection r.1 "B" ["m"] = some 7 ∧
+      isCooler r.1 "A" ["x", "y"] = true ∧ readCollection r.1 "A" ["x", "y"] = some 7 := by
+  decide
+
+theorem wf_nil : WF [] := by
+  intro f h hg
+  exact absurd hg (by simp [getFile])
+
+/-- hence the full statement `mv_source_gone` fails for the code as it is -/
+theorem mv_source_gone_current_false : ¬ mv_source_gone_Statement Variant.current := by
+  intro h
+  have hw : WF fsOne :=
+    createCooler_wf (fs := []) (f := "A") (p := ["x", "y"]) (mode := .a) (c := 7) wf_nil rfl
+  have := h fsOne "A" ["x", "y"] "B" ["m"] false
+    (mv fsOne Variant.current "A" ["x", "y"] "B" ["m"] false).1 hw (by decide) ("A", ["x", "y"])
+  exact this ⟨0, by decide⟩
+
+/-- `A` as above, and `ln -s A::/x/y B::/ext` (an ExternalLink in `B`) -/
+def fsExt : FS := run Variant.spec [] [.create "A" ["x", "y"] .a 7, .ln "A" ["x", "y"] "B" ["ext"] true false]
+
+/-- specification: `B` lists `/ext`, the path `is_cooler` recognises and `Cooler` reads … -/
+theorem d5_spec_example :
+    listing fsExt Variant.spec "B" = .ok [["ext"]] ∧ isCooler fsExt "B" ["ext"] = true ∧
+      readCollection fsExt "B" ["ext"] = some 7 := by
+  decide
+
+/-- … the code as it is lists `/x/y`, the target's name inside `A`, which is not even a path of `B`:
+**finding D5** (`list_exact` fails in a file with an external link) -/
+theorem d5_counterexample :
+    listing fsExt Variant.current "B" = .ok [["x", "y"]] ∧
+      isCooler fsExt "B" ["x", "y"] = false ∧ isCooler fsExt "B" ["ext"] = true := by
+  decide
+
+/-! ### non-vacuity: concrete histories meeting the hypotheses of the theorems -/
+
+/-- `fsOne` is well-formed, its file link-free, the source readable: `copy_reads_equal`,
+`copy_frame`, `list_exact` apply to it non-trivially -/
+example : readCollection fsOne "A" ["x", "y"] = some 7 ∧ listCoolers fsOne "A" = [["x", "y"]] := by decide
+
+example : (cp fsOne Variant.current "A" ["x", "y"] "A" ["c"] false).2 = .ok ∧
+    readCollection (cp fsOne Variant.current "A" ["x", "y"] "A" ["c"] false).1 "A" ["c"] = some 7 := by decide
+
+example : (ln fsOne Variant.current "A" ["x", "y"] "A" ["x", "z"] false false).2 = .ok ∧
+    (ln fsOne Variant.current "A" ["x", "y"] "A" ["s"] true false).2 = .ok ∧
+    (cp fsOne Variant.current "A" ["x", "y"] "B" ["p", "q"] false).2 = .ok ∧
+    (mv fsOne Variant.current "A" ["x", "y"] "A" ["m"] false).2 = .ok := by decide
+
+/-- re-creation over an occupied path that holds a nested collection; append at the root of a
+file with another collection and an unrelated attribute -/
+example :
+    let fs := run Variant.spec [] [.note "A" "keep", .create "A" ["a", "b"] .a 1, .create "A" [] .a 2, .create "A" ["a"] .a 3]
+    listing fs Variant.spec "A" = .ok [[], ["a"]] ∧ readCollection fs "A" [] = some 2 ∧
+      readCollection fs "A" ["a"] = some 3 ∧ isCooler fs "A" ["a", "b"] = false ∧
+      (match lookupE fs "A" [] with | some (.group _ a) => attrGet a "note" | _ => none) = some "keep" := by
+  decide
+
+/-- mode "w" drops everything the file held -/
+example :
+    let fs := run Variant.spec [] [.create "A" ["a"] .a 1, .create "A" ["c"] .w 2]
+    listing fs Variant.spec "A" = .ok [["c"]] ∧ isCooler fs "A" ["a"] = false := by
+  decide
+
+/-- a dangling soft link, a dataset, a missing path and a missing file are all simply "not a cooler",
+and the listing walks past the dangling link -/
+example :
+    let fs := run Variant.spec [] [.create "A" ["a"] .a 1, .ln "A" ["zz"] "A" ["c"] true false]
+    isCooler fs "A" ["c"] = false ∧ isCooler fs "A" ["a", "bins", "start"] = false ∧
+      isCooler fs "A" ["nope"] = false ∧ isCooler fs "Z" ["a"] = false ∧
+      listing fs Variant.current "A" = .ok [["a"]] := by
+  decide
 end Cooler.C15
